@@ -1759,6 +1759,20 @@ func (t *tScreen) scanInput(buf *bytes.Buffer, expire bool, stopQ chan struct{})
 // Return an array of Events extracted from the supplied buffer. This is done
 // while holding the screen's lock - the events can then be queued for
 // application processing with the lock released.
+// escBefore delivers an ESC that was waiting for the key it might modify as
+// a key of its own, ahead of the events from position n on: what followed it
+// was a report from the terminal, not a key.
+func (t *tScreen) escBefore(evs []Event, n int) []Event {
+	if !t.escaped {
+		return evs
+	}
+	t.escaped = false
+	evs = append(evs, nil)
+	copy(evs[n+1:], evs[n:])
+	evs[n] = NewEventKey(KeyEsc, 0, ModNone)
+	return evs
+}
+
 func (t *tScreen) collectEventsFromInput(buf *bytes.Buffer, expire bool) []Event {
 
 	res := make([]Event, 0, 20)
@@ -1774,6 +1788,7 @@ func (t *tScreen) collectEventsFromInput(buf *bytes.Buffer, expire bool) []Event
 		}
 
 		partials := 0
+		n := len(res)
 
 		if part, comp := t.parseRune(buf, &res); comp {
 			continue
@@ -1791,6 +1806,7 @@ func (t *tScreen) collectEventsFromInput(buf *bytes.Buffer, expire bool) []Event
 		// while that key may still complete, the shorter report must not win
 		if partials == 0 || expire {
 			if part, comp := t.parseFocus(buf, &res); comp {
+				res = t.escBefore(res, n)
 				continue
 			} else if part {
 				partials++
@@ -1802,12 +1818,14 @@ func (t *tScreen) collectEventsFromInput(buf *bytes.Buffer, expire bool) []Event
 
 		if t.ti.Mouse != "" {
 			if part, comp := t.parseXtermMouse(buf, &res); comp {
+				res = t.escBefore(res, n)
 				continue
 			} else if part {
 				partials++
 			}
 
 			if part, comp := t.parseSgrMouse(buf, &res); comp {
+				res = t.escBefore(res, n)
 				continue
 			} else if part {
 				partials++
@@ -1816,6 +1834,7 @@ func (t *tScreen) collectEventsFromInput(buf *bytes.Buffer, expire bool) []Event
 
 		if t.setClipboard != "" {
 			if part, comp := t.parseClipboard(buf, &res); comp {
+				res = t.escBefore(res, n)
 				continue
 			} else if part {
 				partials++
